@@ -55,12 +55,16 @@ def run(ctx):
             ok, why = negation_of(facts, f_ne, f_eq)
             ctx.check(ok and not neg_ne and not neg_eq, "K1.negation", "!== is the exact negation of === (%s)" % cfg, "the predicate bound to `!==` is not !strict_eq(a, b): %s" % why, where=f_ne.where(), fn=f_ne.key, nontrivial=True)
         s2n = strnum.find_str_to_number(facts)
-        m = pairs.pair_matrix(roles, f_eq, str_to_number_key=s2n.key)
+        m = pairs.decision_matrix(roles, f_eq, str_to_number_key=s2n.key)
         ctx.floor("kind pairs (%s)" % cfg, len(m), 36)
+        ctx.floor("kind pairs read (%s)" % cfg, sum(1 for o in m.values() if not o.kind.startswith("UNREAD")), 1)
         for (a, b), o in sorted(m.items()):
             want = spec["%s,%s" % (a, b)]
-            ctx.check(o.kind == want, "K2.pair", "%s === %s (%s)" % (a, b, cfg), "%s === %s is decided as %s; ECMAScript: %s" % (a, b, o.kind, want), where=f_eq.where(), fn=f_eq.key, nontrivial=True,
-                      sample={"pair": "%s,%s" % (a, b), "outcome": o.kind} if a == b else None)
+            if o.kind.startswith("UNREAD"):
+                ctx.unread("K2.pair", "%s === %s (%s)" % (a, b, cfg), "the case for %s === %s is written in a form that is not read: %s" % (a, b, o.kind[7:-1]), where=f_eq.where(), fn=f_eq.key)
+                continue
+            ctx.check(o.kind == want, "K2.pair", "%s === %s (%s)" % (a, b, cfg), "%s === %s is decided as %s; ECMAScript: %s [%s]" % (a, b, o.kind, want, "; ".join(o.detail.get("rows", []))[:300]), where=f_eq.where(), fn=f_eq.key, nontrivial=True,
+                      sample={"pair": "%s,%s" % (a, b), "outcome": o.kind, "cases": o.detail.get("rows")} if a == b else None)
         # ---------------- K3
         raw = [callee_path(t) for bb in roles.unit(f_eq.key) for _, t in bb.calls() if re.search(r"^std::ptr::|^core::ptr::", callee_path(t) or "")]
         ctx.check(set(raw) <= {"std::ptr::eq"}, "K3.read-only-pointer", "the predicate's only pointer operation is ptr::eq (%s)" % cfg, "pointer operations: %s" % raw, where=f_eq.where(), fn=f_eq.key)
@@ -108,8 +112,11 @@ def run(ctx):
                 ctx.check(good, "K3.owned-by-conversion", "each operand is the evaluation result converted to an owned Value (%s)" % cfg, "per-argument closure does not return evaluate(..).map(Value::from)", where=ev.where(bi), fn=ev.key, nontrivial=True)
         # ---------------- K4
         b2, e2, f_abs, _, _ = bound_predicate(roles, "==")
-        ma = pairs.pair_matrix(roles, f_abs, str_to_number_key=s2n.key)
+        ma = pairs.decision_matrix(roles, f_abs, str_to_number_key=s2n.key)
         for (a, b), o in sorted(m.items()):
-            if o.kind not in ("CONST:false",):
+            if o.kind not in ("CONST:false",) and not o.kind.startswith("UNREAD"):
+                if ma[(a, b)].kind.startswith("UNREAD"):
+                    ctx.unread("K4.implies-abstract", "%s,%s (%s)" % (a, b, cfg), "the case of == for %s,%s is not read: %s" % (a, b, ma[(a, b)].kind[7:-1]), where=f_abs.where(), fn=f_abs.key)
+                    continue
                 ctx.check(ma[(a, b)].kind == o.kind, "K4.implies-abstract", "%s,%s: == uses the same direct comparison as === (%s)" % (a, b, cfg),
                           "=== decides %s,%s by %s but == by %s: strict equality would not imply abstract equality" % (a, b, o.kind, ma[(a, b)].kind), where=f_abs.where(), fn=f_abs.key, nontrivial=True)
